@@ -18,7 +18,6 @@ import (
 	"verif/harness/proj"
 	"verif/harness/ref4"
 	"verif/harness/ref6"
-	"verif/harness/reflabel"
 	"verif/harness/tree"
 	"verif/harness/v6util"
 )
@@ -216,118 +215,7 @@ func tlv(code int, v []byte) []byte {
 func be32(v uint32) []byte { return []byte{byte(v >> 24), byte(v >> 16), byte(v >> 8), byte(v)} }
 
 // nonCanon6 builds accepted-but-non-canonical DHCPv6 encodings by hand.
-func nonCanon6(r *rand.Rand) []byte {
-	var opts []byte
-	n := 1 + r.IntN(4)
-	for i := 0; i < n; i++ {
-		var o []byte
-		switch r.IntN(16) {
-		case 14, 15: // names within a few octets of the 255-octet limit, ended by root / end of option / pointer
-			v := reflabel.Boundary(r)
-			switch r.IntN(3) {
-			case 0:
-				o = tlv(24, v)
-			case 1:
-				o = tlv(39, append([]byte{byte(r.UintN(8))}, v...))
-			default:
-				o = tlv(56, tlv(3, v))
-			}
-		case 12, 13: // names whose labels hold octets a dotted string cannot carry faithfully: '.' at a label edge or alone,
-			// NUL, upper case, high octets (uncompressed, root-terminated: only the verbatim wire form keeps them apart)
-			var v []byte
-			for k := 0; k < 1+r.IntN(3); k++ {
-				for l := 0; l < 1+r.IntN(3); l++ {
-					lab := gen4.Bytes(r, 1+r.IntN(6))
-					for i := range lab {
-						lab[i] = []byte{'a', 'b', 'w', 'Z', '.', '.', 0, 0x80, '-', '\\'}[r.IntN(10)]
-					}
-					switch r.IntN(4) {
-					case 0:
-						lab[0] = '.'
-					case 1:
-						lab[len(lab)-1] = '.'
-					case 2:
-						lab = []byte{'.'}
-					}
-					v = append(append(v, byte(len(lab))), lab...)
-				}
-				v = append(v, 0)
-			}
-			switch r.IntN(3) {
-			case 0:
-				o = tlv(24, v)
-			case 1:
-				o = tlv(39, append([]byte{byte(r.UintN(8))}, v...))
-			default:
-				o = tlv(56, tlv(3, v))
-			}
-		case 0: // ORO with duplicate codes
-			var v []byte
-			for k := 0; k < 2+r.IntN(6); k++ {
-				c := r.IntN(5) + 20
-				v = append(v, byte(c>>8), byte(c))
-			}
-			o = tlv(6, v)
-		case 1: // 4RD non-map rule with reserved flag bits, traffic class without T bit
-			o = tlv(97, tlv(99, []byte{byte(r.UintN(256)), byte(r.UintN(256)), byte(r.UintN(256)), byte(r.UintN(256))}))
-		case 2: // 4RD map rule with reserved flag bits and host bits beyond the prefix
-			v := []byte{byte(r.UintN(33)), byte(r.UintN(129)), byte(r.UintN(256)), byte(r.UintN(256))}
-			v = append(v, gen4.Bytes(r, 20)...)
-			o = tlv(97, tlv(98, v))
-		case 3: // IA_PD with prefix carrying host bits / length 0 with an address / out-of-range length
-			pl := r.IntN(129)
-			switch r.IntN(4) {
-			case 0:
-				pl = 0
-			case 1:
-				pl = 129 + r.IntN(127)
-			}
-			v := append(append(be32(r.Uint32()), be32(r.Uint32())...), byte(pl))
-			v = append(v, gen4.Bytes(r, 16)...)
-			o = tlv(25, append(append(gen4.Bytes(r, 4), append(be32(1), be32(2)...)...), tlv(26, v)...))
-		case 4: // domain search list with a compression pointer
-			v := []byte{3, 'f', 'o', 'o', 3, 'c', 'o', 'm', 0, 3, 'b', 'a', 'r', 0xC0, byte(4 * r.IntN(2))}
-			o = tlv(24, v)
-		case 5: // FQDN partial name / compressed
-			v := []byte{byte(r.UintN(8)), 4, 'h', 'o', 's', 't'}
-			if r.IntN(2) == 0 {
-				v = append(v, 3, 'l', 'a', 'n', 0)
-			}
-			o = tlv(39, v)
-		case 6: // NTP with fqdn
-			o = tlv(56, append(tlv(3, []byte{3, 'n', 't', 'p', 0}), tlv(1, gen4.Bytes(r, 16))...))
-		case 7: // elapsed time max, refresh time max
-			o = append(tlv(8, []byte{0xff, 0xff}), tlv(32, []byte{0xff, 0xff, 0xff, 0xff})...)
-		case 8: // IA_NA with address and status
-			a := append(gen4.Bytes(r, 16), append(be32(r.Uint32()), be32(r.Uint32())...)...)
-			a = append(a, tlv(13, append([]byte{0, byte(r.UintN(7))}, []byte("ok")...))...)
-			o = tlv(3, append(append(gen4.Bytes(r, 4), append(be32(r.Uint32()), be32(r.Uint32())...)...), tlv(5, a)...))
-		case 9: // vendor class / user class with empty items
-			o = append(tlv(16, append(be32(r.Uint32()), []byte{0, 0, 0, 1, 'x'}...)), tlv(15, []byte{0, 0})...)
-		case 10: // embedded DHCPv4 message, non-canonical
-			w, _ := gen4.WirePacket(r, 4)
-			if len(w) < 1000 {
-				o = tlv(87, w)
-			}
-		case 11: // duplicate options of the same code
-			o = append(tlv(8, []byte{0, 1}), tlv(8, []byte{0, 2})...)
-		}
-		opts = append(opts, o...)
-	}
-	msg := append([]byte{byte(1 + r.UintN(11)), 1, 2, 3}, opts...)
-	for k := r.IntN(3); k > 0; k-- { // wrap in relays
-		h := make([]byte, 34)
-		h[0] = byte(12 + r.UintN(2))
-		h[1] = byte(r.UintN(4))
-		copy(h[2:], gen4.Bytes(r, 32))
-		extra := []byte{}
-		if r.IntN(2) == 0 {
-			extra = tlv(18, gen4.Bytes(r, r.IntN(6)))
-		}
-		msg = append(h, append(extra, tlv(9, msg)...)...)
-	}
-	return msg
-}
+func nonCanon6(r *rand.Rand) []byte { return gen6.NonCanonical(r) }
 
 func TestCheck(t *testing.T) {
 	r := mon.New("C06")
